@@ -460,6 +460,9 @@ def main(tier):
     res.merge(core.pmap(maildir_worker, [(b.dir, tier, lo, hi) for lo, hi in core.chunks(n_md, 30)], timeout=3000))
     res.merge(core.pmap(mbox_worker, [(b.dir, tier, lo, hi) for lo, hi in core.chunks(n_mb, 30)], timeout=3000))
     res.merge(core.pmap(mbox_concurrent_worker, [(b.dir, tier, lo, hi) for lo, hi in core.chunks(n_cc, 16)], timeout=3000))
+    if not res.counters.get("maildir_crash_points_fired") or not res.counters.get("faults_fired_by_site") or not res.counters.get("concurrent_lock_intervals_checked"):
+        res.inconclusive.append("no crash point / fault fired or no lock interval observed: the instrumentation is not active")
+        res.distinct = set()
     rule = ("messages: empty, no final newline, From_/>From_/>>From_ lines, NUL and 8-bit, sizes around the 1024-byte buffers; senders "
             "with spaces, tabs, newlines, empty, #@[]; recipients with newline/space. Maildir: reference run, SIGKILL before every "
             "mutating libc call (new/ judged under 3 disk variants), one injected fault per call site. Mbox: mailboxes built from 3 "
